@@ -8,6 +8,9 @@ CONSTANTS
   MaxNodes = 1
   MaxStack = 1
   BugOptionalDropsNone = FALSE
+  FixedStar = FALSE
+  FixedFinalInString = FALSE
+  FixedNestedLiteral = FALSE
   AnnChoices = {"noann", "int", "QA", "OptInt", "T"}
   DefaultChoices = {"none", "int:1", "..."}
   RetChoices = {"noann", "int", "T"}
@@ -18,5 +21,6 @@ CONSTANTS
   MaxPos = 3
   MaxKw = 2
   BugRuntimeIgnoresKwDefaults = FALSE
+  FixedDunder = FALSE
 INVARIANT EmitHeader
 CHECK_DEADLOCK FALSE
